@@ -3,6 +3,7 @@ package c12stress
 import (
 	"bytes"
 	"context"
+	"fmt"
 	"os"
 	"os/exec"
 	"strconv"
@@ -41,6 +42,9 @@ func Line(prop string, f []string) (string, []corr.Hit) {
 	case strings.HasPrefix(last, "violation\t"):
 		p := strings.SplitN(last, "\t", 3)
 		return "violated", []corr.Hit{{Key: prop + ":" + f[2] + "." + p[1], What: "parallel stress `" + strings.Join(f, " ") + "`: " + p[2]}}
+	case strings.HasPrefix(last, "harness\t"):
+		fmt.Fprintln(os.Stderr, "harness error: parallel stress `"+strings.Join(f, " ")+"`:", last)
+		os.Exit(2)
 	case ctx.Err() != nil:
 		return "violated", []corr.Hit{{Key: prop + ":" + f[2] + ".stress:hang", What: "parallel stress `" + strings.Join(f, " ") + "` did not finish within 120 s"}}
 	}
